@@ -133,6 +133,24 @@ def r3(ctx):
                 uses.append((n, x))
     ctx.need('C11-R3', len(uses), 2, 'uses of alignment attributes')
     bad = [(n, x) for n, x in uses if not (dom[n.id] & rej) or n.id in rej]
+    if bad:
+        # path-sensitive second opinion: with an unmapped read, no feasible path (tests and verdict flags evaluated three-valued, constants assigned to locals
+        # followed) evaluates one of these attributes
+        use_nodes = {id(n.ast): x for n, x in uses}
+
+        def mark(node):
+            e = own_expr(node)
+            if e is None:
+                return None
+            for x in walk_no_nested(e):
+                if isinstance(x, ast.Attribute) and isinstance(x.value, ast.Name) and x.value.id == 'read' and x.attr in ('cigarstring', 'reference_end', 'reference_name', 'cigartuples'):
+                    return f'{x.attr}@{x.lineno}'
+            return None
+        rs = explore(f.body, mk_atoms({'read.is_unmapped': True, 'read is None': False, 'read is not None': True}), mark=mark, max_paths=50000)
+        hit = sorted({v for r in rs for t, v, k in r['stores'] if t == '<mark>'})
+        if rs and not hit:
+            bad = []
+        ctx.counters['paths_enumerated'] += len(rs)
     ctx.emit('C11-R3', not bad, COUNTTABLE, bad[0][1] if bad else f, f'{len(uses)} uses of cigarstring / reference_end / reference_name: ' +
              ('all dominated by the rejection of unmapped reads' if not bad else f'`read.{bad[0][1].attr}` at line {bad[0][1].lineno} can be reached with an unmapped read (None) -> TypeError'),
              key='unmapped-guard', what=f'{RS}: alignment attribute used before unmapped reads are rejected')
@@ -275,10 +293,51 @@ def ev(e, env, atoms):
     return None
 
 
+def _assign_model_or_structural(ctx, rid, structural):
+    """the structural reading of assignReads decides; where it cannot follow a restructured function (anchors not found, constructs not recognised) the interpreted
+    model of assignReads (assign_model: every combination of binning / by-value / pairing / mate selection / multimapping division) decides instead"""
+    from ..core import Ctx, VIOLATED, UNDECIDED
+    sub = Ctx(ctx.ix, 'C11', ctx.tier)
+    err = None
+    try:
+        structural(sub)
+    except AnalysisError as e_:
+        err = e_
+    except Exception as e_:
+        err = AnalysisError(f'structural reading failed ({type(e_).__name__}: {e_})')
+    for k_, v_ in sub.counters.items():
+        ctx.counters[k_] = (ctx.counters.get(k_, set()) | v_) if isinstance(v_, set) else ctx.counters.get(k_, 0) + v_
+    for k_, v_ in getattr(sub, 'exhaustive', {}).items():
+        ctx.exhaustive[k_] = v_
+    open_ = [o for o in sub.obligations if o.status in (VIOLATED, UNDECIDED)]
+    if err is None and not open_:
+        ctx.obligations.extend(sub.obligations)
+        return
+    m = assign_model(ctx)
+    if m is None:
+        ctx.obligations.extend(sub.obligations)
+        if err is not None:
+            raise err
+        return
+    ok, n, wit = m
+    f = ctx.fn(COUNTTABLE, AR)
+    if ok:
+        ctx.obligations.extend([o for o in sub.obligations if o not in open_])
+        ctx.emit(rid, True, COUNTTABLE, f, f'assignReads interpreted on {n} option combinations: keys, samples and weights are the prescribed ones (the structural reading did not follow the restructured function)',
+                 key='assignReads-model')
+    else:
+        ctx.obligations.extend(sub.obligations)
+        ctx.emit(rid, False, COUNTTABLE, f, f'assignReads on a model read: {wit}', key='assignReads-model', witness=wit, what='assignReads: a counted read is stored under a key / weight other than the documented one')
+
+
 @rule('C11', 'C11-R5', 'weights: a read weighs 1/2 iff it is paired with a mapped mate and neither mate selection nor doNotDivideFragments '
                        'is active, otherwise 1; divideMultimapping divides THAT weight by the number of reported hits; the weight reaching the '
                        'table is the computed one (or the tag value under byValue)')
 def r5(ctx):
+    _assign_model_or_structural(ctx, 'C11-R5', _r5_structural)
+
+
+def _r5_structural(ctx):
     g = ctx.fn(COUNTTABLE, AR)
     # segment from `countToAdd = 1` to the construction of count_increment
     # (the first top-level statement that stores the weight, whether a plain assignment or an if/else that assigns it in its arms)
@@ -603,9 +662,13 @@ def assign_model(ctx):
     if hasattr(ctx, '_assign_model'):
         return ctx._assign_model
     import collections
-    from ..consteval import run_function, Raised, Unfoldable
+    from ..consteval import run_function, Raised, Unfoldable, module_scope
     ctx._assign_model = None
     f = ctx.fn(COUNTTABLE, AR)
+    try:
+        mscope = {k_: v_ for k_, v_ in module_scope(ctx.ix, COUNTTABLE).items() if k_ not in (RS, 'readTag', 'coordinate_to_bins')}
+    except Exception:
+        mscope = {}
     params = [a.arg for a in f.args.args]
     if params[:6] != ['read', 'countTable', 'args', 'joinFeatures', 'featureTags', 'sampleTags']:
         return None
@@ -627,27 +690,58 @@ def assign_model(ctx):
         if d in ('coordinate_to_bins',):
             return list(windows)
         if d.endswith('.has_tag'):
-            return False
+            a = [ev.ev(x, env) for x in call.args]
+            return a[0] == world['hits']
+        if d.endswith('.get_tag'):
+            a = [ev.ev(x, env) for x in call.args]
+            if a[0] == world['hits']:
+                return {'XA': 'h1;h2;h3', 'NH': '2'}[a[0]]
+            raise Raised('KeyError', a[0])
         return NotImplemented
     n = 0
+    world = {'hits': None}
     try:
-        for binv, byv, tags, paired, nodiv, keep in itertools.product((None, 1000), (None, 'GN', 'ZZ'), (['DS', 'GN'], ['GN', 'DS'], ['DS'], ['GN', 'ZZ', 'DS']), (False, True), (False, True), (False, True)):
+        for binv, byv, tags, paired, nodiv, keep, mate, hits, join, mate_unmapped in itertools.product((None, 1000), (None, 'GN', 'ZZ'), (['DS', 'GN'], ['GN', 'DS'], ['DS'], ['GN', 'ZZ', 'DS']), (False, True), (False, True), (False, True),
+                                                                                              (None, 'r1only', 'r2only'), (None, 'XA', 'NH'), (True, False), (False, True)):
             if byv is not None and byv not in tags:
+                continue
+            if not join and (binv is not None or keep or mate or hits or (byv is not None and len(tags) < 2)):
+                continue            # features counted one by one: crossed with by-value counting and the pairing weight only
+            if mate_unmapped and (not paired or keep or hits):
                 continue
             if binv is not None and 'DS' not in tags:
                 continue
-            env = {'args.bin': binv, 'args.binTag': 'DS', 'args.byValue': byv, 'args.r1only': False, 'args.r2only': False, 'args.doNotDivideFragments': nodiv,
-                   'args.divideMultimapping': False, 'args.splitFeatures': False, 'args.sliding': None, 'args.keepOverBounds': keep, 'args.ref_lengths': {'chr1': 10000},
-                   'args.bedfile': None, 'args.featureDelimiter': ',', 'read.reference_name': 'chr1', 'read.is_paired': paired, 'read.mate_is_unmapped': False}
+            if (mate or hits) and (keep or tags != ['DS', 'GN']):
+                continue            # the weighting options are crossed with binning / by-value / pairing, not with every key layout again
+            world['hits'] = hits
+            env = dict(mscope)
+            env.update({'args.bin': binv, 'args.binTag': 'DS', 'args.byValue': byv, 'args.r1only': mate == 'r1only', 'args.r2only': mate == 'r2only', 'args.doNotDivideFragments': nodiv,
+                   'args.divideMultimapping': hits is not None, 'args.splitFeatures': False, 'args.sliding': None, 'args.keepOverBounds': keep, 'args.ref_lengths': {'chr1': 10000},
+                   'args.bedfile': None, 'args.featureDelimiter': ',', 'read.reference_name': 'chr1', 'read.is_paired': paired, 'read.mate_is_unmapped': mate_unmapped})
             table = Table()
             n += 1
-            case = {'bin': binv, 'binTag': 'DS', 'byValue': byv, 'featureTags': tags, 'paired with mapped mate': paired, 'doNotDivideFragments': nodiv, 'keepOverBounds': keep, 'tag values': vals}
+            case = {'bin': binv, 'binTag': 'DS', 'byValue': byv, 'featureTags': tags, 'paired with mapped mate': paired, 'doNotDivideFragments': nodiv, 'keepOverBounds': keep, 'tag values': vals,
+                    'mate selection': mate, 'divideMultimapping with tag': hits, 'joinFeatures': join, 'mate unmapped': mate_unmapped}
+            from ..consteval import Instance
+            args_o = Instance(attrs={k_[5:]: v_ for k_, v_ in env.items() if k_.startswith('args.')})
+            read_o = Instance(attrs={k_[5:]: v_ for k_, v_ in env.items() if k_.startswith('read.')})
             for _ in range(2):
-                run_function(f, ['<read>', table, '<args>', True, list(tags), ['SM'], {}, None], env=dict(env), call_hook=hook, budget=40000)
+                run_function(f, [read_o, table, args_o, join, list(tags), ['SM'], {}, None], env=dict(env), call_hook=hook, budget=40000)
             feats = [vals[t] for t in tags if not (binv is not None and t == 'DS') and not (byv is not None and t == byv)]
-            w = float(vals[byv]) if byv is not None else (0.5 if paired and not nodiv else 1)
+            w0 = 1 if mate else (0.5 if paired and not mate_unmapped and not nodiv else 1)
+            if hits:
+                w0 = w0 / (3 if hits == 'XA' else 2)
+            w = float(vals[byv]) if byv is not None else w0
             want = {}
-            if binv is not None:
+            if not join:
+                for t_ in tags:
+                    if byv is not None and t_ == byv:
+                        k_, add_ = tuple(feats), float(vals[byv])
+                    else:
+                        k_, add_ = (vals[t_],), w0
+                    cell_ = k_[0] if len(k_) == 1 else k_
+                    want[cell_] = want.get(cell_, 0) + 2 * add_
+            elif binv is not None:
                 for a_, b_ in windows:
                     if keep or not (a_ < 0 or b_ > 10000):
                         want[tuple(feats + [a_, b_])] = 2 * w
